@@ -25,6 +25,8 @@
   The per-function shapes (which selects list quit, where the task queue is allocated, capacities) are
   GENERATED from the source (MW.Gen.Proto) and matched in MW/Props/C20.lean.
 -/
+import MW.Model.ProtoSkel
+import MW.Gen.Proto
 namespace MW.Model.Proto
 
 /-- the three places the D12 fix touched: does the select at that place list `<-h.quit`? -/
@@ -38,11 +40,22 @@ def Shape.fixed : Shape := ⟨true, true, true⟩
 /-- the skeleton before the D12 fix (fixes/D12.patch reversed) -/
 def Shape.preFix : Shape := ⟨false, false, false⟩
 
+/-- the shape of the working tree, read off the generated skeletons -/
+def Shape.current : Shape :=
+  { susQuit := Skel.hasSelWith MW.Gen.Proto.suspend "send sigSuspend" "recv quit",
+    resQuit := Skel.hasSelWith MW.Gen.Proto.resume "send sigResume" "recv quit",
+    waitQuit := Skel.hasSelWith MW.Gen.Proto.handle "recv sigResume" "recv quit" }
+
 structure Cfg where
   cap : Nat           -- capacity of taskChan = max(#wallet statuses, MaxWaitingTaskNum + 1)
   qcap : Nat          -- capacity of queueBlock and of queueMsgTx
   busy : Nat          -- MaxWaitingTaskNum: IsBusy ⇔ len ≥ busy
   deriving DecidableEq, Repr, Inhabited
+
+/-- the configuration of the working tree for a wallet database with `n` wallet statuses -/
+def Cfg.current (n : Nat) : Cfg :=
+  { cap := max n (MW.Gen.Proto.maxWaitingTaskNum + 1), qcap := MW.Gen.Proto.queueBlockCap,
+    busy := MW.Gen.Proto.maxWaitingTaskNum }
 
 inductive IOut | fin | more | errRetry | errGiveUp
   deriving DecidableEq, Repr, Inhabited
@@ -199,7 +212,7 @@ inductive Reach (sh : Shape) (c : Cfg) : St → Prop
 def Final (s : St) : Prop := s.sp = .done ∧ s.hp = .done ∧ s.wp = .done
 /-- nothing to do and nothing requested: waiting for the environment -/
 def Quiescent (s : St) : Prop := s.sp = .idle ∧ s.hp = .top ∧ s.wp = .top ∧ s.nb = 0 ∧ s.ntx = 0 ∧ s.nt = 0
-def CoreEnabled (sh : Shape) (c : Cfg) (s : St) : Prop := ∃ l s', l.core = true ∧ fire sh c l s = some s'
+def CoreEnabled (sh : Shape) (c : Cfg) (s : St) : Prop := ∃ l, l.core = true ∧ (fire sh c l s).isSome = true
 
 -- ------------------------------------------------------------------ executable exploration (driver)
 
@@ -234,6 +247,6 @@ def rankW : WPc → Nat
   | .impCommit => taskW + 5 | .rem1Commit => taskW + 5 | .rem2Commit => taskW + 5
 def rankS : SPc → Nat
   | .done => 0 | .closing => 1 | .waiting => 2 | .idle => 3
-def measure (s : St) : Nat := 4 * s.nb + 4 * s.ntx + taskW * s.nt + rankH s.hp + rankW s.wp + rankS s.sp
+def stopMeasure (s : St) : Nat := 4 * s.nb + 4 * s.ntx + taskW * s.nt + rankH s.hp + rankW s.wp + rankS s.sp
 
 end MW.Model.Proto
